@@ -22,20 +22,21 @@ first command), `setCmdConfMode` (`exit`), `delCmds`, `markDeleted`, `deleteUnus
 namespace NA.Vpn.G
 open NA.Vpn (sortS insertS genName interleave unorderedA insertRuns)
 
-inductive Kind | acl | gp | pool | tg | user | aaa
+inductive Kind | acl | gp | pool | tg | user | aaa | certmap
   deriving DecidableEq, Repr, Inhabited
 
-/-- position of the prefix in sorted order: aaa-server < access-list < group-policy < ip local pool < tunnel-group < username -/
+/-- position of the prefix in sorted order: aaa-server < access-list < crypto ca certificate map < group-policy < ip local pool <
+tunnel-group < username -/
 def Kind.ord : Kind → Nat
-  | .aaa => 0 | .acl => 1 | .gp => 2 | .pool => 3 | .tg => 4 | .user => 5
+  | .aaa => 0 | .acl => 1 | .certmap => 2 | .gp => 3 | .pool => 4 | .tg => 5 | .user => 6
 
 def Kind.word : Kind → String
   | .aaa => "aaa-server" | .acl => "access-list" | .gp => "group-policy" | .pool => "ip local pool"
-  | .tg => "tunnel-group" | .user => "username"
+  | .tg => "tunnel-group" | .user => "username" | .certmap => "crypto ca certificate map"
 
-/-- names of this kind are taken from the target unchanged -/
+/-- names of this kind are taken from the target unchanged (a tunnel-group only if it is an anchor: named by an address) -/
 def Kind.fixed : Kind → Bool
-  | .tg => true | .user => true | .aaa => true | _ => false
+  | .user => true | .aaa => true | _ => false
 
 abbrev Ref := Kind × String
 
@@ -383,7 +384,7 @@ def deleteUnused (st : St) : St :=
 
 def initSt (a b : List Obj) : St :=
   { a := a, b := b,
-    gen := b.map fun o => (o.id, if o.kind.fixed then o.name
+    gen := b.map fun o => (o.id, if o.kind.fixed || o.anchor then o.name
       else genName o.name ((a.filter fun x => x.kind == o.kind).map (·.name))) }
 
 /-- The change list `drc` prints for the fragment; `none` = abort / outside the fragment. -/
